@@ -10,6 +10,8 @@ func init() {
 		Fixtures:    []string{"n"},
 		Run:         runC17,
 		SelfTest: []Mutation{
+			{Name: "BiCGSTAB hands out the exact half-step without storing it", File: "numerical/cg.go",
+				Old: "\t\tb.terminate = true\n\t\tb.x = h\n\t\treturn b.x\n", New: "\t\tb.terminate = true\n\t\treturn h\n", Rule: "RETFIELD", Expect: "BiCGSTAB"},
 			{Name: "polynomial deflation works in the caller's coefficients", File: "numerical/polynomial.go",
 				Old: "\ttemp := append(Polynomial{}, p...)\n", New: "\ttemp := p\n", Rule: "Q", Expect: "Polynomial"},
 			{Name: "ridge penalty added to a column instead of the diagonal", File: "numerical/least_squares.go",
@@ -69,6 +71,9 @@ func runC17(c *Ctx) {
 	c.runQueryPurityFor(newEffEngine(c), c.libPkgs()[4:5], "Q", map[string][]string{})
 	qAllExported = false
 	c.floor("Q", 4)
+	// an iterative solver stores the iterate it hands out
+	c.runRetField("RETFIELD", append(c.libPkgs()[4:5:5], c.fixturePkg("n")), nil)
+	c.floor("RETFIELD", 0)
 	c.runPascal("PASCAL")
 	c.floor("PASCAL", 10)
 }
